@@ -119,6 +119,13 @@ var harnessIntrinsics = map[string]intrinsic{
 		b, _ := in.userState["stdout"].([]*sym.Term)
 		return mkStr(b)
 	},
+	// vtempdir(): a fresh, existing, empty directory
+	"vtempdir": func(in *Interp, _ *ssa.Function, args []Value) Value {
+		f := in.fs()
+		name := fmt.Sprintf("/vfs/t%d", len(f.files))
+		f.files[name] = &vfile{dir: true}
+		return name
+	},
 	// vchoose(n): a value in 0..n-1, forking n ways without solver queries
 	"vchoose": func(in *Interp, _ *ssa.Function, args []Value) Value {
 		n := in.concreteInt(args[0], "vchoose")
@@ -742,10 +749,38 @@ func (in *Interp) fmtArg(v Value, verb byte) []*sym.Term {
 		}
 		v = i.V
 	}
+	if verb == 'x' {
+		var bs []Value
+		switch x := v.(type) {
+		case Array:
+			bs = x
+		case []Value:
+			bs = x
+		}
+		if bs != nil || v != nil {
+			if _, ok := v.(Array); ok || bs != nil {
+				var out []*sym.Term
+				hexd := func(n *sym.Term) *sym.Term {
+					return sym.Ite(sym.ULt(n, sym.BV(10, 8)), sym.Add(n, sym.BV('0', 8)), sym.Add(n, sym.BV('a'-10, 8)))
+				}
+				for _, e := range bs {
+					t, ok := e.(*sym.Term)
+					if !ok || t.W != 8 {
+						in.unsupported("fmt: %%x of non-byte sequence")
+					}
+					out = append(out, hexd(sym.LShr(t, sym.BV(4, 8))), hexd(sym.BAnd(t, sym.BV(15, 8))))
+				}
+				return out
+			}
+		}
+	}
 	switch v := v.(type) {
 	case string:
 		if verb == 'q' {
 			return strBytes(strconv.Quote(v))
+		}
+		if verb == 'x' {
+			return strBytes(fmt.Sprintf("%x", v))
 		}
 		return strBytes(v)
 	case *SymStr:
@@ -822,8 +857,14 @@ func (in *Interp) sprintf(format Value, args []Value) Value {
 			// fall back to native formatting for concrete scalars
 			var native any
 			av := arg
+			unsigned := false
 			if iv, ok := av.(Iface); ok {
 				av = iv.V
+				if iv.T != nil {
+					if b, ok := iv.T.Underlying().(*types.Basic); ok && isInt(b) && !Signed(b) {
+						unsigned = true
+					}
+				}
 			}
 			switch x := av.(type) {
 			case *sym.Term:
@@ -831,6 +872,9 @@ func (in *Interp) sprintf(format Value, args []Value) Value {
 					in.unsupported("fmt: flags on symbolic operand")
 				}
 				native = x.Int()
+				if unsigned {
+					native = x.C
+				}
 			case string:
 				native = x
 			case float64:
